@@ -479,6 +479,10 @@ pub fn act_bracket(sim: &mut Sim, ctx: &mut Ctx, kind: BracketKind) -> Option<Tx
         }
         2 => {
             ixs.insert(start_pos + 1, start.clone());
+            if ctx.rng.chance(1, 2) {
+                let len = *ctx.rng.pick(&[0usize, 1, 4, 7, 8]);
+                ixs.insert(start_pos + 1, Ix::foreign("allowed_foreign", ctx.world.allowed_foreign, vec![3; len]));
+            }
             sim.stats.fault("tx_bracket_repeated_start");
         }
         3 => {
@@ -565,6 +569,12 @@ pub fn act_bracket(sim: &mut Sim, ctx: &mut Ctx, kind: BracketKind) -> Option<Tx
                 };
                 let which = ctx.rng.below(2);
                 ixs.insert(start_pos + 1, second);
+                if ctx.rng.chance(1, 2) {
+                    // ... hidden behind a neutral instruction (short or ordinary data)
+                    let len = *ctx.rng.pick(&[0usize, 1, 4, 7, 8]);
+                    ixs.insert(start_pos + 1, Ix::foreign("allowed_foreign", ctx.world.allowed_foreign, vec![3; len]));
+                    sim.stats.fault("tx_bracket_second_start_behind_neutral_instruction");
+                }
                 if !other_has_record {
                     ixs.insert(start_pos, ix::init_liq_record(other, ctx.world.payer));
                 }
@@ -611,6 +621,21 @@ pub fn act_bracket(sim: &mut Sim, ctx: &mut Ctx, kind: BracketKind) -> Option<Tx
             }
         }
         _ => {}
+    }
+    // whatever the shape: sometimes a neutral instruction (an allowed foreign program's instruction
+    // with short or ordinary data, a compute-budget instruction) lands at a random position -
+    // between two starts, between start and the first withdraw, right before the end.  A shape
+    // check that stops scanning at such an instruction is only visible this way.
+    if ixs.len() >= 2 && ctx.rng.chance(1, 4) {
+        let pos = ctx.rng.range(1, ixs.len() as u64 - 1) as usize;
+        let neutral = if ctx.rng.chance(1, 4) {
+            ix::compute_budget()
+        } else {
+            let len = *ctx.rng.pick(&[0usize, 1, 4, 7, 8, 16]);
+            Ix::foreign("allowed_foreign", ctx.world.allowed_foreign, vec![3; len])
+        };
+        ixs.insert(pos, neutral);
+        sim.stats.fault("tx_bracket_neutral_instruction_inserted");
     }
     Some(Tx::many(
         match kind {
